@@ -11,10 +11,10 @@ cd "$W"
 mkdir -p tests
 cp "$SEED/demo.rs" "tests/$DEMO.rs"
 echo "--- demo WITHOUT the change"
-CARGO_NET_OFFLINE=true cargo test --offline --test "$DEMO" 2>&1 | grep -E "^test result|error\[" | head -3
+CARGO_NET_OFFLINE=true cargo test --offline ${FEATURES:+--features $FEATURES} --test "$DEMO" 2>&1 | grep -E "^test result|error\[" | head -3
 git apply "$SEED/patch.diff" || { echo "PATCH DOES NOT APPLY"; }
 echo "--- demo WITH the change"
-CARGO_NET_OFFLINE=true cargo test --offline --test "$DEMO" 2>&1 | grep -E "^test result|error\[" | head -3
+CARGO_NET_OFFLINE=true cargo test --offline ${FEATURES:+--features $FEATURES} --test "$DEMO" 2>&1 | grep -E "^test result|error\[" | head -3
 rm -f "tests/$DEMO.rs"
 echo "--- suite WITH the change"
 CARGO_NET_OFFLINE=true cargo test --offline 2>&1 | grep -E "^test result|error\[" | head -4
